@@ -20,7 +20,9 @@ RULE_TEXT = ("one run = 2-4 secured stations exchanging genuine CAM/VAM/DENM/gen
              "(a) mutates captured genuine secured frames (single-bit flip, byte substitution, truncation, extension at seeded positions), "
              "(b) decodes, edits one field (payload, psid, generationTime, generationLocation, signer digest / certificate fields, r, s, hashId, "
              "protocolVersion) and re-encodes, (c) signs with its own key under a self-made root/AA/AT chain, under a genuine ticket it does not own "
-             "(digest or certificate), under re-signed / key-swapped certificates, (d) sends unsecured copies of genuine payloads, (e) replays; "
+             "(digest or certificate), under re-signed / key-swapped certificates, under crafted certificates (own key, genuine AA named as issuer) "
+             "whose signature octets sit in an unusual CHOICE / point form (Brainpool, P-384, SM2; r as compressed-y-*, uncompressed, fill; compressed "
+             "subject keys), the same encodings for the message signature over a genuine ticket, (d) sends unsecured copies of genuine payloads, (e) replays; "
              "every GN indication at every receiver must be justified by an independent verifier (raw ecdsa + chain check); trust stores are checked "
              "at the end; non-trivial = at least one adversary frame reached a receiver; distinct = distinct sequences of (adversary kind, outcome)")
 COMPONENTS = c05.COMPONENTS
@@ -30,6 +32,7 @@ ASSUMPTIONS = ["mutations that leave the decoded envelope identical (bits the OE
                "the unsigned basic header (lifetime, remaining hop limit) may be altered"]
 EXPECTED_PROBES = ["adv:bitflip", "adv:byte", "adv:truncate", "adv:extend", "adv:field", "adv:attacker-chain", "adv:key-mismatch-cert",
                    "adv:key-mismatch-digest", "adv:unknown-digest", "adv:unsecured-copy", "adv:replay", "adv:resigned", "adv:key-swapped",
+                   "adv:crafted-encoding", "adv-crafted:cert", "adv-crafted:msg", "adv-field:cert-sig-alg", "adv-field:cert-version-lowered",
                    "adv-frame-rejected", "genuine-delivered", "store-checked"]
 
 FIELD_EDITS = [
@@ -47,7 +50,11 @@ FIELD_EDITS = [
     ("sig-s", ["content", 1, "signature"]),
     ("hashId", ["content", 1, "hashId"]),
     ("protocolVersion", ["protocolVersion"]),
+    # edits added later are only drawn by the second plan stream (gen_plan), so that earlier plans keep their shape
+    ("cert-sig-alg", ["content", 1, "signer", 1, 0, "signature"]),
+    ("cert-version", ["content", 1, "signer", 1, 0, "version"]),
 ]
+N_FIELDS_V1 = 14
 ADV_KINDS = ["bitflip", "bitflip", "bitflip", "byte", "truncate", "extend", "field", "field", "attacker-chain", "key-mismatch-cert",
              "key-mismatch-digest", "unknown-digest", "unsecured-copy", "replay", "resigned", "key-swapped"]
 
@@ -82,7 +89,25 @@ def gen_plan(run_seed: int, tier: str) -> dict:
               "n": r.randint(1, 40), "victim": r.randrange(n), "form": r.choice(["certificate", "digest"]), "psid": r.choice([36, 36, 37, 638, 99]),
               "tag": k}
         if kind == "field":
-            op["field"] = r.randrange(len(FIELD_EDITS))
+            op["field"] = r.randrange(N_FIELDS_V1)
+        aops.append(op)
+    # second stream (own PRNG): crafted encodings and edits of certificate-carrying frames
+    r2 = random.Random(run_seed ^ 0xC3AF7ED)
+    for k in range(r2.choice([0, 1, 1, 2, 3])):
+        op = {"op": "adv", "t": r2.randint(50_000, dur + 200_000), "base": r2.randrange(1 << 20), "pos": r2.random(), "val": r2.randrange(256),
+              "n": r2.randint(1, 40), "victim": r2.randrange(n), "tag": 1000 + k}
+        if r2.random() < 0.65:
+            what = "cert" if r2.random() < 0.7 else "msg"
+            alg = r2.choice(sc.SIG_ALGS) if r2.random() < 0.5 else sc.SIG_ALGS[0]
+            r_form = r2.choice(sc.R_FORMS[1:]) if (alg != sc.SIG_ALGS[0] or r2.random() < 0.85) else "x-only"
+            if alg == sc.SIG_ALGS[0] and r_form == "x-only" and what == "msg":
+                r_form = "compressed-y-0"
+            op.update({"kind": "crafted-encoding", "what": what, "alg": alg, "r_form": r_form, "rs": r2.choice(["random", "copied"]),
+                       "key_form": r2.choice(sc.KEY_FORMS), "own_tbs": r2.random() < 0.3, "psid": r2.choice([36, 36, 638, 99, 37]),
+                       "form": r2.choice(["certificate", "certificate", "digest"]), "then_digest": r2.random() < 0.5})
+        else:
+            op.update({"kind": "field", "field": r2.choice([N_FIELDS_V1, N_FIELDS_V1 + 1]), "need_cert": True, "lower": True,
+                       "form": "certificate", "psid": 36})
         aops.append(op)
     plan["ops"] = sorted(plan["ops"] + aops, key=lambda o: o["t"])
     cfg["run_limit_us"] = max(cfg["run_limit_us"], dur + 1_000_000)
@@ -112,6 +137,11 @@ class Sim(SecNetSim):
             if not genuine:
                 rec["skipped"] = True
                 return
+            if op.get("need_cert"):
+                genuine = [t for t in genuine if t["m"].signer_kind == "certificate"]
+                if not genuine:
+                    rec["skipped"] = True
+                    return
             base = genuine[op["base"] % len(genuine)]
             bframe = frames_all[base["i"]]
             entry["base"] = base
@@ -134,6 +164,10 @@ class Sim(SecNetSim):
                     rec["skipped"] = True
                     return
                 new = _edit_value(name, cur, op)
+                if name == "cert-sig-alg" and new is not None:
+                    self.probe("adv-field:cert-sig-alg")
+                if name == "cert-version" and new is not None and new < cur:
+                    self.probe("adv-field:cert-version-lowered")
                 if new is None:
                     rec["skipped"] = True
                     return
@@ -169,6 +203,25 @@ class Sim(SecNetSim):
             elif kind == "key-swapped":
                 f = self.forger.key_swapped("at", vt, tag=op["tag"] % 3)
                 env = self.forger.message(payload_inner, psid, now_its_us, f.key, f.cert, "certificate")
+            elif kind == "crafted-encoding":
+                loc = {"latitude": adv.pos[0], "longitude": adv.pos[1], "elevation": 0xF000} if psid == 37 else None
+                entry["form"] = op["what"] + "/" + ("r-" + op["r_form"] if op["alg"] == sc.SIG_ALGS[0] else "other-alg")
+                self.probe("adv-crafted:" + op["what"])
+                if op["what"] == "cert":
+                    f = self.forger.crafted("at", vt, op["alg"], op["r_form"], op["rs"], op["key_form"], tag=op["tag"] % 3, own_tbs=op["own_tbs"])
+                    first = "certificate" if op["then_digest"] else op["form"]
+                    env = self.forger.message(payload_inner, psid, now_its_us, f.key, f.cert, first, generation_location=loc)
+                    if op["then_digest"]:
+                        # poisoning attempt: certificate-carrying frame first, then a digest-signed one naming the crafted certificate
+                        e1 = dict(entry, frame=rc.enc_basic(rc.NH_SECURED, 26, 1) + env, forged_payload=payload_inner)
+                        self.fault("inject")
+                        self.fault("forge")
+                        e1["tx"] = self.transmit(adv, e1["frame"], injected=True)
+                        self.adv_log.append(e1)
+                        env = self.forger.message(payload_inner, psid, now_its_us, f.key, f.cert, "digest", generation_location=loc)
+                else:
+                    env = self.forger.message_crafted_signature(payload_inner, psid, now_its_us, i=vt, signer_form=op["form"], alg=op["alg"],
+                                                                r_form=op["r_form"], tag=op["tag"] % 3, generation_location=loc)
             else:
                 raise HarnessError("adv kind " + kind)
             frame = rc.enc_basic(rc.NH_SECURED, 26, 1) + env
@@ -215,7 +268,11 @@ def _edit_value(name, cur, op):
         b[v % 8] ^= 1 << (v % 8)
         return ("digest", bytes(b))
     if name == "cert-version":
+        if op.get("lower") or v % 2:
+            return max(0, cur - 1 - (v // 2) % 3) if cur > 0 else None
         return cur + 1 + v % 3
+    if name == "cert-sig-alg":
+        return sc.reencode_signature(cur, alg=sc.SIG_ALGS[1 + v % 4])
     if name == "cert-psid":
         lst = copy.deepcopy(cur)
         lst.append({"psid": 4242 + v})
